@@ -28,6 +28,14 @@ def queries(tier):
         if q.name.startswith("repctx-") and q.defs.get("SKEL", "").endswith(" X") and q.name not in names:
             q.group = "~" + q.group + "#ctxclose"
             qs.append(q)
+    # close with several receives pending on one survey after one of them was cancelled
+    from props import C07
+    names = set(q.name for q in qs)
+    for q in C07.queries(tier):
+        sk = q.defs.get("SKEL", "")
+        if q.name.startswith("surv-") and sk.count("R(0,") >= 2 and "X(" in sk and q.name not in names:
+            q.group = "~" + q.group + "#c10"
+            qs.append(_cross.exclude_nonblock_findings(q) if hasattr(_cross, "exclude_nonblock_findings") else q)
     qs += handle_queries(tier)
     qs += ep_handle_queries(tier)
     qs += ep_create_queries(tier)
